@@ -405,10 +405,12 @@ Definition adm_clone (c : cfg) (w : world) (v : nat) : Prop :=
 (** the allocator can serve the request (and the prebuilt storage of the relocating backend) *)
 Definition adm_withcap (c : cfg) (bk : bkind) (n : N) : Prop :=
   bk_wf bk /\ n <= usize_max /\
-  match bk with
-  | BReloc c0 => c_sz c * N.max n c0 <= alloc_limit
-  | _ => c_sz c * n <= alloc_limit
-  end.
+  (match bk with
+   | BReloc c0 => c_sz c * N.max n c0 <= alloc_limit
+   | _ => c_sz c * n <= alloc_limit
+   end \/
+   (* ... or the request is refused before it reaches the allocator *)
+   (layout_limit c bk < c_sz c * n /\ match bk with BReloc c0 => c_sz c * c0 <= alloc_limit | _ => True end)).
 
 (** the result of a splice of [n] replacement values into the range fits, can be grown to, or is refused by the checks *)
 Definition adm_splice (c : cfg) (w : world) (vid : nat) (sb eb : bound) (n : N) : Prop :=
@@ -1903,6 +1905,40 @@ Proof.
     unfold emitv. cbn [fst snd]. unfold ret at 1 2. cbn [fst snd].
     exists (emit (EExpand add) u), (emit (EResize (vlen v + n)) u).
     cbn [fst snd]. rewrite ?Ebk. unfold emitv. cbn [fst snd]. rewrite !Hrr. split; [reflexivity|]. split; [reflexivity|]. split; apply same_user_emit; reflexivity.
+Qed.
+
+Lemma mem_resize_layout_panic c v u n :
+  cfg_wf c -> resizable_backend (vbk v) -> c_sz c * vcap v <= alloc_limit ->
+  layout_limit c (vbk v) < c_sz c * n ->
+  let p := if usize_max <? c_sz c * n then POverflow else PLayout in
+  exists u1, mem_resize c n (v, u) = Panic p (v, u1) /\ same_user u u1.
+Proof.
+  intros [Hal1 Hal2] Hres Hcap Hlim p.
+  assert (Hsz : c_sz c <> 0) by (intros E; rewrite E in Hlim; lia).
+  assert (Hll : alloc_limit <= layout_limit c (vbk v)).
+  { unfold layout_limit. destruct (vbk v); try lia; unfold alloc_limit, isize_max in *; lia. }
+  assert (Hne : vcap v <> n) by (intros E; rewrite E in Hcap; lia).
+  assert (Hn0 : n <> 0) by (intros E; rewrite E in Hlim; lia).
+  unfold mem_resize, bind, getv. cbn [fst snd].
+  destruct (vbk v) as [| | | |c0] eqn:Ebk; try (destruct Hres as [Hx|[cx Hx]]; discriminate).
+  - exists u. split; [|apply same_user_refl].
+    unfold heap_resize, bind, getv, of_ovf, of_opt, checked_mul. cbn [fst snd].
+    destruct (N.eqb_spec (vcap v) n); [contradiction|].
+    destruct (N.eqb_spec (c_sz c) 0); [contradiction|].
+    destruct (N.eqb_spec n 0); [contradiction|].
+    unfold p. destruct (N.leb_spec (c_sz c * n) usize_max) as [Hok|Hov].
+    + destruct (N.ltb_spec usize_max (c_sz c * n)); [lia|].
+      unfold ret. cbn [fst snd]. unfold layout_limit in Hlim. cbv beta iota in Hlim.
+      destruct (N.ltb_spec (isize_max - (c_al c - 1)) (c_sz c * n)); [reflexivity|lia].
+    + destruct (N.ltb_spec usize_max (c_sz c * n)); [reflexivity|lia].
+  - exists (emit (EResize n) u). split; [|apply same_user_emit; reflexivity].
+    unfold emitv. cbn [fst snd].
+    unfold reloc_resize, bind, getv, of_ovf, of_opt, checked_mul. cbn [fst snd].
+    unfold p. destruct (N.leb_spec (c_sz c * n) usize_max) as [Hok|Hov].
+    + destruct (N.ltb_spec usize_max (c_sz c * n)); [lia|].
+      unfold ret. cbn [fst snd]. unfold layout_limit in Hlim. cbv beta iota in Hlim.
+      destruct (N.ltb_spec alloc_limit (c_sz c * n)); [reflexivity|lia].
+    + destruct (N.ltb_spec usize_max (c_sz c * n)); [reflexivity|lia].
 Qed.
 
 Lemma exec_panics_same_user c w st vid av vv (m : M Vec.st unit) p r u' :
